@@ -1270,7 +1270,7 @@ class Scene(Geometry3D):
         result = self.copy()
 
         # a scale of 1.0 is a no-op
-        if np.allclose(scale, 1.0):
+        if np.all(np.asarray(scale, dtype=np.float64) == 1.0):
             return result
 
         # convert 2D geometries to 3D for 3D scaling factors
